@@ -24,8 +24,8 @@ from ..models import fmt as FM
 
 ID = "C15"
 LEVEL = "exploration"
-TIERS = {"quick": {"shards": 16, "budget_s": 30, "runs": 40, "subprocess_runs": 4, "formatter_values": 4000},
-         "thorough": {"shards": 16, "budget_s": 480, "runs": 1500, "subprocess_runs": 64, "formatter_values": 150000}}
+TIERS = {"quick": {"shards": 16, "budget_s": 120, "runs": 40, "subprocess_runs": 4, "formatter_values": 4000},
+         "thorough": {"shards": 16, "budget_s": 900, "runs": 1500, "subprocess_runs": 64, "formatter_values": 150000}}
 RULE = ("auditok.cmdline.main(argv) run in-process (its sleep shortened; no other thread alive, as main requires) and as real "
         "`python -m auditok.cmdline` child processes, on generated 8/16-bit mono/stereo/3-channel recordings given as raw file, "
         "wav file or standard input, with random subsets and values of -n -m -s -a -e -d -R -u -M -r -c -w -f -L --printf "
